@@ -38,10 +38,16 @@ func ECSS(a, n int) templ.CSSClass {
 }
 
 func EHandle(a int) *templ.OnceHandle {
-	if a%2 == 0 {
+	switch a % 4 {
+	case 0:
 		return eh0
+	case 1:
+		return eh1
+	case 2:
+		return ez0
+	default:
+		return ez1
 	}
-	return eh1
 }
 
 // EFixed is the once handle that carries its own component.
